@@ -6,7 +6,7 @@ EXTENDS Cron_Sim, TLCExt
 CONSTANTS K, Goals
 
 GView == <<now, booted, api, cache, evq, addch, updch, heap, wq, retry, sync, jobs, jcache, jevq, ops, faults, restarts, uidc, lo, req, lastfired, reqs, ever, act>>
-GInit == SInit /\ \A i \in 1..6 : TLCSet(i, 0)
+GInit == SInit /\ \A i \in 1..7 : TLCSet(i, 0)
 GSpec == GInit /\ [][SNext]_svars
 
 InSeq(s, j) == \E i \in 1..Len(s) : s[i] = j
@@ -23,6 +23,9 @@ G_RetryAfterDisable == \E k \in retry : faults > 0 /\ (~api[k[1]].ex \/ api[k[1]
 \* both workers hold requests of the same JobConfig
 G_TwoWorkersOneConfig == \E w1, w2 \in Workers : w1 # w2 /\ sync[w1].busy /\ sync[w2].busy /\ sync[w1].jc = sync[w2].jc
 
+\* the JobConfig watch has just broken and the re-list showed (by a tombstone only) that a scheduled JobConfig is gone
+G_DeletedSeenByRelist == act = "RelistJC" /\ \E j \in JCs : ~cache[j].ex /\ ~api[j].ex /\ heap[j] # None /\ InSeq(updch, j)
+
 EmitGoal(i, name, G) == ~G \/ TLCGet(i) >= K \/ (TLCSet(i, TLCGet(i) + 1) /\ PrintT(<<"SCHED", ToJson(sched), name>>))
 Goal1 == EmitGoal(1, "UpdatePendingWhileDue", G_UpdatePendingWhileDue)
 Goal2 == EmitGoal(2, "RestartBeyondDowntime", G_RestartBeyondDowntime)
@@ -30,5 +33,6 @@ Goal3 == EmitGoal(3, "RequestWhileJobUnseen", G_RequestWhileJobUnseen)
 Goal4 == EmitGoal(4, "ReincarnatedStaleCache", G_ReincarnatedStaleCache)
 Goal5 == EmitGoal(5, "RetryAfterDisable", G_RetryAfterDisable)
 Goal6 == EmitGoal(6, "TwoWorkersOneConfig", G_TwoWorkersOneConfig)
+Goal7 == EmitGoal(7, "DeletedSeenByRelist", G_DeletedSeenByRelist)
 Stop == \E i \in Goals : TLCGet(i) < K
 ====
